@@ -21,11 +21,11 @@ Shapes == { <<"run", "run", "reset", "list">>,
             <<"reset", "list", "run", "run", "run", "reset", "list">> }
 
 ASSUME ndJsonSerialize("kindsets.ndjson", SetToSeq({ [kinds |-> SetToSeq(K)] : K \in KindSets }))
-ASSUME ndJsonSerialize("assigns.ndjson",
-         SetToSeq({ [nm |-> 3, f |-> f] : f \in Assigns(3) }) \o SetToSeq({ [nm |-> 4, f |-> f] : f \in Assigns(4) }))
+MountCounts == { Len(c.mounts) : c \in Configs }
+ASSUME ndJsonSerialize("assigns.ndjson", SetToSeq(UNION { { [nm |-> nm, f |-> f] : f \in Assigns(nm) } : nm \in MountCounts }))
 ASSUME ndJsonSerialize("shapes.ndjson", SetToSeq({ [shape |-> s] : s \in Shapes }))
 ASSUME ndJsonSerialize("configs.ndjson", SetToSeq(Configs))
-ASSUME PrintT(<<"generated", Cardinality(KindSets), Cardinality(Assigns(3)), Cardinality(Assigns(4)), Cardinality(Shapes)>>)
+ASSUME PrintT(<<"generated", Cardinality(KindSets), MountCounts, Cardinality(Shapes), Cardinality(Configs)>>)
 VARIABLE x
 Init == x = 0
 Next == UNCHANGED x
